@@ -13,7 +13,9 @@ No program input is ever executed; no solver is used (zone.py is the numeric
 domain).
 """
 import itertools
+import os
 import re
+import sys
 
 from . import values
 from .model import Program, short
@@ -731,6 +733,10 @@ class Engine:
         k = e[0]
         if k == 'f':
             child = self.mk_default(st, e[2], name=path_str(path) + '.' + e[1])
+            if isinstance(cur, StructV) and cur.ty == 'screen::CharOpts' and e[1] in ('fg', 'bg') and isinstance(child, StrV):
+                # an unknown cell rendition: its colours are some stored colours (every store into a colour
+                # field of a CharOpts, wherever it lives, is checked by the colour rule of C09)
+                child = StrV(None, oid=child.oid, prov=('inv', 'colour'))
             if isinstance(cur, StructV):
                 return child, cur.with_field(e[1], child)
             if isinstance(cur, OpaqueV):
@@ -757,6 +763,8 @@ class Engine:
                     child = self.summ.inst(st, cur.elem)
                 else:
                     child = self.mk_default(st, elem_type(cur.ty, cur.kind))
+                    if isinstance(child, StrV) and child.prov is None and isinstance(e[1], StrV) and e[1].known is not None:
+                        child = StrV(None, oid=child.oid, prov=('map-value-const', e[1].known))    # the text a map holds under this key
                 if ck is not None and isinstance(child, CollV):
                     st.vn[ck] = child
                 return child, cur
@@ -1393,6 +1401,11 @@ class Engine:
                     self.havoc_loop(st, fr, bi, loops[bi], depth)
             elif bi in loops and st.vn.get(('unrolling', fr.uid, bi)):
                 pass
+            elif bi in loops and (prev is None or (prev, bi) not in back) and self.remove_all_idiom(st, fr, bi, loops[bi], depth) is not None:
+                # `for k in keys { coll.remove(&k) }` over keys selected from coll itself: summarised as one
+                # retain (done by remove_all_idiom); continue after the loop
+                work.append((st, self.remove_all_idiom_exit(fr, bi, loops[bi]), None))
+                continue
             elif bi in loops and (prev is None or (prev, bi) not in back) and self.small_const_loop(st, fr, bi):
                 st.vn[('unrolling', fr.uid, bi)] = True
             elif bi in loops and (prev is None or (prev, bi) not in back) and self.concrete_guard(st, fr, bi, loops[bi], depth):
@@ -1438,6 +1451,19 @@ class Engine:
             v = self.rvalue(st, fr, s['rv'], s['place']['ty'])
             path = self.resolve(st, fr, s['place'])
             self.write(st, path, v)
+            if self.event_hook is not None and not self.probing:
+                # colour fields of a cell rendition (`CharOpts { fg, bg, .. }`), wherever the value lives: each store
+                # is an event for the rule "every colour stored is a documented name or six hex digits"
+                pr = s['place']['proj']
+                rv = s['rv']
+                stores = []
+                if pr and pr[-1]['k'] == 'field' and pr[-1].get('name') in ('fg', 'bg') and isinstance(v, StrV):
+                    stores.append((pr[-1]['name'], v))
+                elif rv.get('k') == 'aggregate' and rv.get('adt') == 'screen::CharOpts' and isinstance(v, StructV):
+                    stores += [(n, v.fields.get(n)) for n in ('fg', 'bg') if isinstance(v.fields.get(n), StrV)]
+                for (n, x) in stores:
+                    c = CallCtx(self, st, fr, None, {'args': [], 'span': s.get('span') or {}, 'dest': None}, None, 'colour.store', [], 0)
+                    self.event_hook(c, ('colour.store', n, x))
         elif k == 'setdiscr':
             path = self.resolve(st, fr, s['place'])
             v = self.read(st, path)
@@ -2036,6 +2062,127 @@ class Engine:
             self.apply_counters(st, fr, head, cinfo, pre)
         st.log(('loop-head', fr.func, head, fr.uid, self.loop_iter_desc(st, fr, head)))
 
+    def remove_all_idiom_exit(self, fr, head, blocks):
+        body = fr.body
+        ex = sorted({s for b in blocks for s in body.succs(b) if s not in blocks and body.blocks[s]['term']['k'] != 'unreachable'})
+        return ex[0] if len(ex) == 1 else None
+
+    def remove_all_idiom(self, st, fr, head, blocks, depth):
+        """is the loop at `head` the spelled-out `retain`:  `for k in keys { coll.remove(&k); }`  where `keys` is
+        a list selected from `coll` itself by a predicate (`coll.keys().filter(p).copied().collect()`), `coll`
+        unchanged since, and the body does nothing else?  If so apply `coll.retain(|k| !p(k))` to st and
+        return True; otherwise None (st untouched)"""
+        if self.probing or self.cfg.get('unroll'):
+            return None
+        body = fr.body
+        ht = body.blocks[head]['term']
+        if ht['k'] != 'call' or not ((ht['func'].get('fn') or {}).get('path', '')).endswith('::next'):
+            return None
+        dbg = (lambda *a: sys.stderr.write('[remove-all %s bb%d] %s\n' % (fr.func, head, ' '.join(str(x) for x in a)))) if os.environ.get('MTSA_DEBUG_IDIOM') else (lambda *a: None)
+        if self.remove_all_idiom_exit(fr, head, blocks) is None:
+            dbg('exit 1')
+            return None
+        calls = []
+        for b in blocks:
+            t = body.blocks[b]['term']
+            if t['k'] == 'call' and b != head:
+                calls.append((b, (t['func'].get('fn') or {}).get('path', '')))
+            elif t['k'] not in ('goto', 'switch', 'drop', 'call', 'unreachable'):
+                dbg('exit 2')
+                return None
+        if len(calls) != 1:
+            dbg('exit 3')
+            return None
+        nm = self.summ.norm_btree(calls[0][1])
+        if nm not in ('std::collections::HashMap::<K, V, S, A>::remove', 'std::collections::HashSet::<T, S, A>::remove'):
+            dbg('exit 4')
+            return None
+        try:
+            a0 = ht['args'][0]
+            s0 = st.fork()
+            for s_ in body.blocks[head]['stmts']:          # (the `&mut iter` temporary is made in the head block)
+                self.stmt(s0, fr, s_)
+            itref = self.operand(s0, fr, a0)
+            it = self.read(s0, itref.path) if isinstance(itref, RefV) else itref
+        except Exception:
+            dbg('exit 5')
+            return None
+        if not isinstance(it, IterV) or it.kind != 'coll' or any(o[0] != 'cloned' for o in it.ops) or st.vn.get(('iterpos', it.iid)) is not None:
+            dbg('exit 6', it, getattr(it, 'ops', None), st.vn.get(('iterpos', getattr(it, 'iid', None))))
+            return None
+        ipath = it.args[0]
+        keys = self.read(st, ipath) if ipath is not None else None
+        if not isinstance(keys, CollV):
+            dbg('exit 7')
+            return None
+        fl = st.vn.get(('filtered', keys.cid))
+        if fl is None or fl[3] != keys.ver or (len(fl) > 4 and fl[4]):
+            dbg('exit 8')
+            return None
+        # one iteration on a scratch state: which collection is the element removed from, and is the key the element?
+        sp = st.fork()
+        mark = len(sp.event_list())
+        saved = (self.hooks, self.event_hook, self.call_trace_hook)
+        self.hooks, self.event_hook, self.call_trace_hook = [], None, None
+        self.probing += 1
+        try:
+            _res, backs, _g = self._explore(sp, fr, head, depth, region=(head, blocks, None))
+        except Budget:
+            raise
+        except Exception:
+            dbg('exit 9')
+            return None
+        finally:
+            self.probing -= 1
+            self.hooks, self.event_hook, self.call_trace_hook = saved
+        recv = None
+        for sb in backs:
+            evs = [e for e in sb.event_list()[mark:] if e[0] in ('map.remove', 'set.remove', 'map.insert', 'set.insert', 'w', 'vec.push', 'call')]
+            if len(evs) != 1 or evs[0][0] not in ('map.remove', 'set.remove'):
+                dbg('exit 10')
+                return None
+            sp_, k = evs[0][1], evs[0][2]
+            el = sb.vn.get(('iterelem', it.iid))
+            if not (isinstance(k, NumV) and isinstance(el, NumV) and k.key() == el.key()):
+                dbg('exit 11')
+                return None
+            if recv is not None and recv != sp_:
+                dbg('exit 12')
+                return None
+            recv = sp_
+        if recv is None or not backs:
+            dbg('exit 13')
+            return None
+        # the path of the collection the keys are removed from (a field of the Screen or a local)
+        rpath = self.path_of_spath(st, fr, recv)
+        if rpath is None:
+            dbg('exit 14')
+            return None
+        cur = self.read(st, rpath)
+        if not isinstance(cur, CollV) or cur.key() != fl[0]:
+            dbg('exit 15')
+            return None
+        self.summ.h['remove_all'](st, fr, head, depth, rpath, fl)
+        return True
+
+    def path_of_spath(self, st, fr, sp):
+        """store path for the readable path the effect log uses (('S', field, ..) or ('_<local>', ..)); only plain field paths"""
+        if not sp:
+            return None
+        if sp[0] == 'S':
+            root = S_ROOT
+        elif isinstance(sp[0], str) and sp[0].startswith('_'):
+            return None
+        else:
+            return None
+        elems = []
+        for x in sp[1:]:
+            if isinstance(x, str):
+                elems.append(('f', x, '?'))
+            else:
+                return None
+        return (root, tuple(elems))
+
     def plain_havoc(self, st, fr, head, blocks):
         body = fr.body
         mod = self.loop_mod(fr, blocks)
@@ -2062,6 +2209,20 @@ class Engine:
                     # every push inside the loop is checked (obligation `capinv` in Vec::push)
                     nv = nv.evolve(elem=self.fresh_num(st, 'u32', 0, self.cfg['arg_max'], name=body.local_name(l) + '[*]'),
                                    prov=('capinv', v.prov))
+            if isinstance(v, StructV) and isinstance(nv, StructV):
+                # the same candidate invariant for a parameter list kept as a field of a local struct
+                # (`acc.params: Vec<u32>`): fields are materialised so that the list keeps its identity
+                adt = self.prog.adts.get(ty)
+                ftys = {f_['name']: f_['ty'] for f_ in adt['variants'][0]['fields']} if adt and adt.get('variants') else {}
+                nf = dict(nv.fields)
+                for fname, fty in ftys.items():
+                    fv = v.fields.get(fname)
+                    if fty == 'std::vec::Vec<u32>' and isinstance(fv, CollV) and self._elems_in_domain(st, fv):
+                        d = self.mk_default(st, fty, name='%s.%s@loop' % (body.local_name(l), fname))
+                        nf[fname] = d.evolve(elem=self.fresh_num(st, 'u32', 0, self.cfg['arg_max'], name='%s.%s[*]' % (body.local_name(l), fname)),
+                                             prov=('capinv', fv.prov))
+                if nf != nv.fields:
+                    nv = StructV(nv.ty, nf, nv.prov)
             st.store[root] = nv
         # Screen paths written in the loop: re-initialise to an arbitrary INV state
         w = self.loop_written(fr, head, blocks)
